@@ -158,11 +158,47 @@ def run(ctx: Ctx) -> None:
                         ctx.violation(f"C20:{op}:grad:{n}", "compiled gradient differs from eager", {**key, "wrt": n},
                                       None if a is None or b is None else float((a.double() - b.double()).abs().max()))
 
+    # ---------------- one geometry, every constraint name in turn: eager must not carry anything from one call to the next
+    #                  (the compiled function is traced afresh), so eager == compiled for every constraint in the sequence
+    sweep_ops = ["gelu", "silu", "softmax", "matmul", "linear", "conv1d", "add"] if quick else \
+        ["gelu", "silu", "softmax", "matmul", "linear", "linear_readout", "conv1d", "add"]
+    for op in sweep_ops:
+        base_case = ops.gen_case(rng, op)
+        if op == "add" and base_case.cfg.get("mode") == "number":
+            continue
+        names_ = list(ops.TERNARY if op in ("matmul", "add") else ops.BINARY)
+        rng.shuffle(names_)
+        seq = names_[: (3 if quick else len(names_))] + [None] + names_[:1]
+        for si, cname in enumerate(seq):
+            case = ops.OpCase(op, {**base_case.cfg, "constraint": cname}, base_case.shapes, base_case.diff)
+            dt = torch.float32
+            key = {**case.key(), "dtype": str(dt), "backend": backend, "constraint_sequence_position": si}
+            ctx.count(key, bucket=f"constraint-sweep/{op}")
+            base = ops.make_inputs(case, 31, dt)
+
+            def f2(t, case=case):
+                return ops.call_impl(U, case, t, 11)
+
+            got = want = None
+            with ctx.guard(f"C20:{op}:constraint-sweep", key):
+                want = run_fn(f2, base, case.diff, 5)
+                torch._dynamo.reset()
+                got = run_fn(torch.compile(f2, backend=backend), base, case.diff, 5)
+            if got is None or want is None:
+                continue
+            if not close(got[0], want[0], dt) or any((a is None) != (b is None) or (a is not None and not close(a, b, dt))
+                                                      for a, b in zip(got[1], want[1])):
+                ctx.violation(f"C20:{op}:constraint-sweep", "after calls with other constraints on the same geometry, eager and "
+                              "compiled results differ", key)
+
     # ---------------- modules and compositions
     Hd = 8
 
+    from ..custom_ops import CustomScaledOp
+
     def mk_modules() -> List[Tuple[str, Callable[[], nn.Module], Tuple[int, ...], bool]]:
         return [
+            ("CustomScaledOp", CustomScaledOp, (4, Hd), False),
             ("GELU", lambda: uu.GELU(mult=rng.choice([0.5, 1.0, 2.0]), constraint=rng.choice([None, "to_output_scale"])), (4, Hd), False),
             ("SiLU", lambda: uu.SiLU(constraint=None), (4, Hd), False),
             ("Softmax", lambda: uu.Softmax(dim=-1, mult=2.0), (4, Hd), False),
